@@ -34,6 +34,8 @@ enum Act {
     RemoteRead,
     /// these consumers go away together (both halves of their channels are dropped)
     Drop(Vec<usize>),
+    /// time passes (seconds; only on a paused clock)
+    Advance(u64),
 }
 
 #[derive(Clone, Debug, PartialEq)]
@@ -88,10 +90,12 @@ struct Outcome {
     /// the order in which things were given to the write task: producers and commands
     wevs: Vec<String>,
     problem: Option<String>,
+    /// how many of the actions were carried out (the runtime may stop of its own accord on a paused clock)
+    executed: usize,
 }
 
 /// For map downlinks an event / command number n stands for `update key (n mod 3) -> n`.
-async fn run_case(map: bool, acts: &[Act], socket_buffer: usize) -> Outcome {
+async fn run_case(map: bool, acts: &[Act], socket_buffer: usize, expect_stop: bool) -> Outcome {
     let (req_tx, req_rx) = mpsc::channel::<AttachAction>(16);
     // socket: the runtime writes requests to out_tx, reads responses from in_rx
     let (out_tx, out_rx) = byte_channel(std::num::NonZeroUsize::new(socket_buffer).unwrap());
@@ -105,7 +109,7 @@ async fn run_case(map: bool, acts: &[Act], socket_buffer: usize) -> Outcome {
         remote_buffer_size: non_zero_usize!(4096),
         downlink_buffer_size: non_zero_usize!(65536),
     };
-    let task = if map {
+    let mut task = if map {
         let rt = MapDownlinkRuntime::new(req_rx, (out_tx, in_rx), stop_rx, address, config, AlwaysAbortStrategy);
         tokio::spawn(rt.run())
     } else {
@@ -121,8 +125,55 @@ async fn run_case(map: bool, acts: &[Act], socket_buffer: usize) -> Outcome {
     let mut ended = false;
     settle().await;
 
+    macro_rules! collect_notes {
+        () => {
+        for k in consumers.iter_mut() {
+            loop {
+                let next: Option<Option<Result<Note, String>>> = match &mut k.rx {
+                    None => None,
+                    Some(ConsumerRx::Value(rx)) => rx.next().now_or_never().map(|o| {
+                        o.map(|r| {
+                            r.map(|n| match n {
+                                DownlinkNotification::Linked => Note::Linked,
+                                DownlinkNotification::Synced => Note::Synced,
+                                DownlinkNotification::Unlinked => Note::Unlinked,
+                                DownlinkNotification::Event { body } => Note::Event(body),
+                            })
+                            .map_err(|e| format!("{:?}", e))
+                        })
+                    }),
+                    Some(ConsumerRx::Map(rx)) => rx.next().now_or_never().map(|o| {
+                        o.map(|r| {
+                            r.map(|n| match n {
+                                DownlinkNotification::Linked => Note::Linked,
+                                DownlinkNotification::Synced => Note::Synced,
+                                DownlinkNotification::Unlinked => Note::Unlinked,
+                                DownlinkNotification::Event { body: MapMessage::Update { value, .. } } => Note::Event(value),
+                                DownlinkNotification::Event { .. } => Note::Event(-1),
+                            })
+                            .map_err(|e| format!("{:?}", e))
+                        })
+                    }),
+                };
+                match next {
+                    Some(Some(Ok(n))) => k.seen.push(n),
+                    Some(Some(Err(e))) => {
+                        problem = Some(format!("a consumer could not read a notification: {}", e));
+                        break;
+                    }
+                    _ => break,
+                }
+            }
+        }
+        };
+    }
+    let mut executed = 0usize;
+    let mut finished = false;
     for act in acts {
         match act {
+            Act::Advance(secs) => {
+                tokio::time::advance(Duration::from_secs(*secs)).await;
+            }
             Act::Attach { sync } => {
                 let (n_tx, n_rx) = byte_channel(non_zero_usize!(65536));
                 let (c_tx, c_rx) = byte_channel(non_zero_usize!(65536));
@@ -150,7 +201,12 @@ async fn run_case(map: bool, acts: &[Act], socket_buffer: usize) -> Outcome {
                 };
                 let msg = ResponseMessage { origin: Uuid::from_u128(5), path, envelope };
                 if remote_tx.send(msg).await.is_err() {
-                    problem = Some("the runtime closed the socket".to_string());
+                    settle().await;
+                    if task.is_finished() {
+                        finished = true;
+                    } else {
+                        problem = Some("the runtime closed the socket".to_string());
+                    }
                     break;
                 }
             }
@@ -222,52 +278,27 @@ async fn run_case(map: bool, acts: &[Act], socket_buffer: usize) -> Outcome {
             }
         }
         // collect what the consumers have been told
-        for k in consumers.iter_mut() {
-            loop {
-                let next: Option<Option<Result<Note, String>>> = match &mut k.rx {
-                    None => None,
-                    Some(ConsumerRx::Value(rx)) => rx.next().now_or_never().map(|o| {
-                        o.map(|r| {
-                            r.map(|n| match n {
-                                DownlinkNotification::Linked => Note::Linked,
-                                DownlinkNotification::Synced => Note::Synced,
-                                DownlinkNotification::Unlinked => Note::Unlinked,
-                                DownlinkNotification::Event { body } => Note::Event(body),
-                            })
-                            .map_err(|e| format!("{:?}", e))
-                        })
-                    }),
-                    Some(ConsumerRx::Map(rx)) => rx.next().now_or_never().map(|o| {
-                        o.map(|r| {
-                            r.map(|n| match n {
-                                DownlinkNotification::Linked => Note::Linked,
-                                DownlinkNotification::Synced => Note::Synced,
-                                DownlinkNotification::Unlinked => Note::Unlinked,
-                                DownlinkNotification::Event { body: MapMessage::Update { value, .. } } => Note::Event(value),
-                                DownlinkNotification::Event { .. } => Note::Event(-1),
-                            })
-                            .map_err(|e| format!("{:?}", e))
-                        })
-                    }),
-                };
-                match next {
-                    Some(Some(Ok(n))) => k.seen.push(n),
-                    Some(Some(Err(e))) => {
-                        problem = Some(format!("a consumer could not read a notification: {}", e));
-                        break;
-                    }
-                    _ => break,
-                }
-            }
-        }
+        collect_notes!();
+        executed += 1;
         if problem.is_some() {
             break;
         }
+        if task.is_finished() {
+            // the runtime is gone (unlinked, or both halves voted to stop): what it told the consumers last
+            finished = true;
+            settle().await;
+            collect_notes!();
+            break;
+        }
     }
+    // Whether an idle runtime stops is not demanded: no property states it, and the read half arms its idle timer
+    // only when its loop comes round again (after the flush that finds the last consumer gone it waits for the
+    // next message or consumer first), so a quiet lane keeps an abandoned downlink alive.
+    let _ = (expect_stop, finished);
     stop_tx.trigger();
     drop(req_tx);
-    let _ = tokio::time::timeout(Duration::from_secs(5), task).await;
-    Outcome { seen: consumers.into_iter().map(|k| k.seen).collect(), frames, wevs, problem }
+    let _ = tokio::time::timeout(Duration::from_secs(5), &mut task).await;
+    Outcome { seen: consumers.into_iter().map(|k| k.seen).collect(), frames, wevs, problem, executed }
 }
 
 fn coq_note(n: &Note) -> String {
@@ -294,12 +325,30 @@ fn main() {
     let mut failures: Vec<String> = vec![];
     let mut nontrivial = 0u64;
     let mut samples = vec![];
-    for i in 0..args.cases {
-        let map = i % 3 == 2;
-        let slow_socket = i % 4 == 1;
+    // on a paused clock: the runtime's own stop (nobody attached for the whole timeout on both halves)
+    let ev = |n: i64| Act::Remote(RMsg::Event(n));
+    let corpus: Vec<(bool, Vec<Act>, bool)> = vec![
+        // the last consumer goes away, the read half notices at the next event, the timeout passes twice: gone
+        (false, vec![Act::Attach { sync: false }, Act::Remote(RMsg::Linked), Act::RemoteRead, ev(101), Act::Drop(vec![0]), ev(102), Act::Advance(70), Act::Advance(70)], true),
+        (true, vec![Act::Attach { sync: true }, Act::Remote(RMsg::Linked), Act::RemoteRead, ev(101), Act::Remote(RMsg::Synced), Act::Drop(vec![0]), ev(102), Act::Advance(70), Act::Advance(70)], true),
+        // nobody ever attaches
+        (false, vec![Act::Advance(70), Act::Advance(70)], true),
+        // a consumer stays: however much time passes the runtime stays and goes on serving it
+        (false, vec![Act::Attach { sync: false }, Act::Remote(RMsg::Linked), Act::RemoteRead, ev(101), Act::Advance(70), Act::Advance(70), ev(102), Act::Advance(70), ev(103), Act::RemoteRead], false),
+        // a consumer arrives after the read half has voted (the write half has not): the vote is withdrawn
+        (false, vec![Act::Remote(RMsg::Linked), Act::Advance(70), Act::Attach { sync: false }, Act::RemoteRead, ev(101), Act::Advance(70), ev(102), Act::RemoteRead], false),
+        // one of two goes away: the other is still served after the timeout
+        (false, vec![Act::Attach { sync: false }, Act::Attach { sync: true }, Act::Remote(RMsg::Linked), Act::RemoteRead, ev(101), Act::Remote(RMsg::Synced), Act::Drop(vec![1]), ev(102), Act::Advance(70), Act::Advance(70), ev(103), Act::RemoteRead], false),
+    ];
+    for i in 0..args.cases + corpus.len() {
+        let from_corpus = if i >= args.cases { Some(&corpus[i - args.cases]) } else { None };
+        let map = from_corpus.map(|c| c.0).unwrap_or(i % 3 == 2);
+        let timed = from_corpus.is_some() || i % 5 == 4;
+        let expect_stop = from_corpus.map(|c| c.2).unwrap_or(false);
+        let slow_socket = from_corpus.is_none() && i % 4 == 1;
         // a session: consumers attach at any moment; the remote answers link, events, sync at any moment
         let n = rng.range(4, 16) as usize;
-        let mut acts = vec![];
+        let mut acts: Vec<Act> = vec![];
         let mut attached = 0usize;
         let mut next_event = 100i64;
         let mut next_cmd = 500i64;
@@ -307,7 +356,7 @@ fn main() {
         let mut unlinked = false;
         let mut dropped: Vec<usize> = vec![];
         for _ in 0..n {
-            let pick = rng.below(12);
+            let pick = rng.below(if timed { 14 } else { 12 });
             match pick {
                 0 | 1 | 2 if attached < 4 => {
                     acts.push(Act::Attach { sync: rng.below(3) != 0 });
@@ -328,6 +377,7 @@ fn main() {
                     acts.push(Act::Command(*rng.pick(&live), next_cmd));
                 }
                 9 => acts.push(Act::RemoteRead),
+                12 | 13 => acts.push(Act::Advance(*rng.pick(&[25u64, 70]))),
                 11 if attached >= 2 && rng.below(2) == 0 => {
                     // one to three consumers go away at the same moment
                     let mut cs: Vec<usize> = (0..attached).filter(|c| !dropped.contains(c) && rng.below(2) == 0).collect();
@@ -380,7 +430,26 @@ fn main() {
         }
         acts.push(Act::RemoteRead);
         acts.push(Act::RemoteRead);
-        let out = rt.block_on(run_case(map, &acts, if slow_socket { 48 } else { 65536 }));
+        if let Some(c) = from_corpus {
+            acts = c.1.clone();
+        }
+        let out = if timed {
+            // a clock of its own that only moves when told to
+            let prt = tokio::runtime::Builder::new_current_thread().enable_all().start_paused(true).build().unwrap();
+            prt.block_on(run_case(map, &acts, if slow_socket { 48 } else { 65536 }, expect_stop))
+        } else {
+            rt.block_on(run_case(map, &acts, if slow_socket { 48 } else { 65536 }, false))
+        };
+        // what was not carried out (the runtime stopped of its own accord) is not part of the case
+        let stopped_itself = out.executed < acts.len() && out.problem.is_none();
+        acts.truncate(out.executed.max(if out.problem.is_some() { acts.len() } else { 0 }));
+        let dropped: Vec<usize> = acts.iter().flat_map(|a| match a { Act::Drop(cs) => cs.clone(), _ => vec![] }).collect();
+        if timed {
+            *kinds.entry("paused_clock".into()).or_default() += 1;
+            if stopped_itself || (expect_stop && out.problem.is_none()) {
+                *kinds.entry("the_runtime_stopped_of_its_own_accord".into()).or_default() += 1;
+            }
+        }
         if let Some(p) = &out.problem {
             failures.push(format!("case {}: {} (actions {:?})", i, p, acts));
             continue;
@@ -430,8 +499,8 @@ fn main() {
             coq_list(dropped.iter().map(|c| c.to_string())),
             coq_list(out.wevs.iter().cloned()),
             coq_list(frames),
-            !slow_socket && !map && !acts.iter().any(|a| matches!(a, Act::Remote(RMsg::Unlinked))),
-            !acts.iter().any(|a| matches!(a, Act::Remote(RMsg::Unlinked)))
+            !timed && !slow_socket && !map && !acts.iter().any(|a| matches!(a, Act::Remote(RMsg::Unlinked))),
+            !(timed && (stopped_itself || expect_stop)) && !acts.iter().any(|a| matches!(a, Act::Remote(RMsg::Unlinked)))
         );
         let human = format!("map={} slow_socket={} actions {:?} -> consumers {:?} remote {:?}", map, slow_socket, acts, out.seen, out.frames);
         if samples.len() < 3 && late {
